@@ -144,7 +144,7 @@ except Exception:
     pass
 m = {
  "version": 1,
- "setup_cmd": "cd /verif/mc && CARGO_NET_OFFLINE=true cargo build --release --offline --workspace --bins",
+ "setup_cmd": "cd /verif/mc && CARGO_NET_OFFLINE=true cargo build --release --offline --workspace --bins && mkdir -p /verif/work && RUSTFLAGS=\"--cfg fkie_cad_cwe_checker_verif\" CARGO_TARGET_DIR=/verif/work/target-cli CARGO_NET_OFFLINE=true cargo build --release --offline --manifest-path /repo/Cargo.toml -p cwe_checker",
  "hooks": {
    "guard": "--cfg fkie_cad_cwe_checker_verif",
    "enable": "rustflags = [\"--cfg\", \"fkie_cad_cwe_checker_verif\"] in /verif/mc/.cargo/config.toml (applies to every harness build of /repo/src/cwe_checker_lib and of the CLI)",
